@@ -221,13 +221,19 @@ def T : {m n : ℕ} → MExpr K m n → MExpr K n m
   | _, _, scaledOrth c Q => scaledOrth c Qᵀ
   | _, _, eigSym pd Q ev => eigSym pd Q ev
   | _, _, rect A => rect Aᵀ
-  | _, _, blockDiag .square a b => blockDiag .square (T a) (T b)
-  | _, _, blockDiag k a b => blockDiag k a b
+  | _, _, blockDiag k a b =>
+      match k with
+      | .square => blockDiag .square (T a) (T b)
+      | .symmetric => blockDiag .symmetric a b
+      | .posdef => blockDiag .posdef a b
   | _, _, blockRow a b => blockCol (T a) (T b)
   | _, _, blockCol a b => blockRow (T a) (T b)
   | _, _, prod pk a b => prod pk (T b) (T a)
-  | _, _, lowRank .square s U V S Kin C => lowRank .square s (T V) (T U) (T S) (T Kin) (T C)
-  | _, _, lowRank kind s U V S Kin C => lowRank kind s U V S Kin C
+  | _, _, lowRank kind s U V S Kin C =>
+      match kind with
+      | .square => lowRank .square s (T V) (T U) (T S) (T Kin) (T C)
+      | .symmetric => lowRank .symmetric s U V S Kin C
+      | .posdef => lowRank .posdef s U V S Kin C
 
 /-- `.inv` (`_construct_inv`).  Total: on objects that are not `InvertibleMatrix` the result is
 meaningless (but well-typed); see `IsInv`. -/
@@ -249,11 +255,14 @@ def inv : {m n : ℕ} → MExpr K m n → MExpr K n m
   | _, _, blockRow a b => blockCol (inv a) (inv b)
   | _, _, blockCol a b => blockRow (inv a) (inv b)
   | _, _, prod pk a b => prod pk (inv b) (inv a)
-  | _, _, lowRank .square s U V S Kin C =>
-      lowRank .square s.flip (prod .plain (inv S) U) (prod .plain V (inv S)) (inv S) (inv C) (inv Kin)
-  | _, _, lowRank kind s U _ S Kin C =>
-      lowRank kind s.flip (prod .plain (inv S) U) (prod .plain (T U) (T (inv S))) (inv S) (inv C)
-        (inv Kin)
+  | _, _, lowRank kind s U V S Kin C =>
+      -- symmetric kinds: right factor `(S⁻¹ @ U).T = (U.T, S⁻¹.T)` and `S⁻¹.T is S⁻¹`
+      lowRank kind s.flip (prod .plain (inv S) U)
+        (match kind with
+          | .square => prod .plain V (inv S)
+          | .symmetric => prod .plain (T U) (inv S)
+          | .posdef => prod .plain (T U) (inv S))
+        (inv S) (inv C) (inv Kin)
 
 /-- The scalar `sg * r²`. -/
 def scal (sg : Sgn) (r : K) : K := (sg.val : K) * (r * r)
@@ -266,24 +275,29 @@ def smul (sg : Sgn) (r : K) : {m n : ℕ} → MExpr K m n → MExpr K m n
   | _, _, tri f => tri (f.smul (scal sg r))
   | _, _, triFact pd s f => triFact (pd && sg.isPos) (s.mul sg) (f.smul r)
   | _, _, denseDef _ s A f => denseDef (s.mul sg).isPos (s.mul sg) (scal sg r • A) (f.smul r)
-  | _, _, lu false A X => lu false (scal sg r • A) ((scal sg r)⁻¹ • X)
-  | _, _, lu true A X => lu true ((scal sg r)⁻¹ • A) (scal sg r • X)
+  | _, _, lu inverse A X =>
+      if inverse then lu true ((scal sg r)⁻¹ • A) (scal sg r • X)
+      else lu false (scal sg r • A) ((scal sg r)⁻¹ • X)
   | _, _, denseSym A Q ev => denseSym (scal sg r • A) Q (fun i => ev i * scal sg r)
   | _, _, orth Q => scaledOrth (scal sg r) Q
   | _, _, scaledOrth c Q => scaledOrth (scal sg r * c) Q
   | _, _, eigSym pd Q ev => eigSym (pd && sg.isPos) Q (fun i => ev i * scal sg r)
   | _, _, rect A => rect (scal sg r • A)
-  | _, _, blockDiag .posdef a b =>
-      blockDiag (if sg.isPos then .posdef else .square) (smul sg r a) (smul sg r b)
-  | _, _, blockDiag k a b => blockDiag k (smul sg r a) (smul sg r b)
+  | _, _, blockDiag k a b =>
+      blockDiag (match k with
+          | .square => .square
+          | .symmetric => .symmetric
+          | .posdef => if sg.isPos then .posdef else .square)
+        (smul sg r a) (smul sg r b)
   | _, _, blockRow a b => blockRow (smul sg r a) (smul sg r b)
   | _, _, blockCol a b => blockCol (smul sg r a) (smul sg r b)
   | _, _, prod pk a b => prod pk (scaledId _ false (scal sg r)) (prod pk a b)
-  | _, _, lowRank .posdef s U V S Kin C =>
-      lowRank (if sg.isPos then .posdef else .symmetric) s U V (smul sg r S) (smul sg r Kin)
-        (smul sg r⁻¹ C)
   | _, _, lowRank kind s U V S Kin C =>
-      lowRank kind s U V (smul sg r S) (smul sg r Kin) (smul sg r⁻¹ C)
+      lowRank (match kind with
+          | .square => .square
+          | .symmetric => .symmetric
+          | .posdef => if sg.isPos then .posdef else .symmetric)
+        s U V (smul sg r S) (smul sg r Kin) (smul sg r⁻¹ C)
 
 /-- `_left_matrix_multiply(B)` (`self @ B` for an array `B`; vectors are one-column matrices). -/
 def leftMul : {m n : ℕ} → MExpr K m n → {p : ℕ} → Mat n p K → Mat m p K
@@ -340,7 +354,16 @@ def diagonal : {m n : ℕ} → MExpr K m n → (Fin m → K)
   | _, _, lowRank _ s U V S Kin _ =>
       fun i => diagonal S i +
         (s.val : K) * ∑ j, (rightMul (denote U) Kin) i j * (denote (T V)) i j
-  | _, _, e => diagOf (denote e)
+  | _, _, triFact pd s f => diagOf (denote (triFact pd s f))
+  | _, _, denseDef _ _ A _ => diagOf A
+  | _, _, lu inverse A X => diagOf (if inverse then X else A)
+  | _, _, denseSym A _ _ => diagOf A
+  | _, _, orth Q => diagOf Q
+  | _, _, eigSym pd Q ev => diagOf (denote (eigSym pd Q ev))
+  | _, _, rect A => diagOf A
+  | _, _, blockRow a b => diagOf (denote (blockRow a b))
+  | _, _, blockCol a b => diagOf (denote (blockCol a b))
+  | _, _, prod pk a b => diagOf (denote (prod pk a b))
 
 /-- The determinant that `log_abs_det` is the log-abs of, composed the way the classes compose it. -/
 def sdet : {m n : ℕ} → MExpr K m n → K
@@ -364,11 +387,23 @@ def sdet : {m n : ℕ} → MExpr K m n → K
 
 /-- `isinstance(·, InvertibleMatrix)`. -/
 def isInvClass : {m n : ℕ} → MExpr K m n → Bool
+  | _, _, identity _ => true
+  | _, _, scaledId _ _ _ => true
+  | _, _, diag _ _ => true
+  | _, _, tri _ => true
+  | _, _, triFact _ _ _ => true
+  | _, _, denseDef _ _ _ _ => true
+  | _, _, lu _ _ _ => true
+  | _, _, denseSym _ _ _ => true
+  | _, _, orth _ => true
+  | _, _, scaledOrth _ _ => true
+  | _, _, eigSym _ _ _ => true
   | _, _, rect _ => false
+  | _, _, blockDiag _ _ _ => true
   | _, _, blockRow _ _ => false
   | _, _, blockCol _ _ => false
   | _, _, prod pk _ _ => pk == .invertible
-  | _, _, _ => true
+  | _, _, lowRank _ _ _ _ _ _ _ => true
 
 /-- `_choose_matrix_product_class`. -/
 def chooseProd {l m n : ℕ} (a : MExpr K l m) (b : MExpr K m n) : PKind :=
@@ -396,36 +431,63 @@ def cls : {m n : ℕ} → MExpr K m n → String
   | _, _, eigSym pd _ _ =>
       if pd then "EigendecomposedPositiveDefiniteMatrix" else "EigendecomposedSymmetricMatrix"
   | _, _, rect _ => "DenseRectangularMatrix"
-  | _, _, blockDiag .square _ _ => "SquareBlockDiagonalMatrix"
-  | _, _, blockDiag .symmetric _ _ => "SymmetricBlockDiagonalMatrix"
-  | _, _, blockDiag .posdef _ _ => "PositiveDefiniteBlockDiagonalMatrix"
+  | _, _, blockDiag k _ _ =>
+      match k with
+      | .square => "SquareBlockDiagonalMatrix"
+      | .symmetric => "SymmetricBlockDiagonalMatrix"
+      | .posdef => "PositiveDefiniteBlockDiagonalMatrix"
   | _, _, blockRow _ _ => "BlockRowMatrix"
   | _, _, blockCol _ _ => "BlockColumnMatrix"
-  | _, _, prod .plain _ _ => "MatrixProduct"
-  | _, _, prod .square _ _ => "SquareMatrixProduct"
-  | _, _, prod .invertible _ _ => "InvertibleMatrixProduct"
-  | _, _, lowRank .square _ _ _ _ _ _ => "SquareLowRankUpdateMatrix"
-  | _, _, lowRank .symmetric _ _ _ _ _ _ => "SymmetricLowRankUpdateMatrix"
-  | _, _, lowRank .posdef _ _ _ _ _ _ => "PositiveDefiniteLowRankUpdateMatrix"
+  | _, _, prod pk _ _ =>
+      match pk with
+      | .plain => "MatrixProduct"
+      | .square => "SquareMatrixProduct"
+      | .invertible => "InvertibleMatrixProduct"
+  | _, _, lowRank kind _ _ _ _ _ _ =>
+      match kind with
+      | .square => "SquareLowRankUpdateMatrix"
+      | .symmetric => "SymmetricLowRankUpdateMatrix"
+      | .posdef => "PositiveDefiniteLowRankUpdateMatrix"
 
 /-- The object is an `InvertibleMatrix` whose `.inv` is meaningful. -/
 def IsInv : {m n : ℕ} → MExpr K m n → Prop
+  | _, _, identity _ => True
+  | _, _, scaledId _ _ _ => True
+  | _, _, diag _ _ => True
+  | _, _, tri _ => True
+  | _, _, triFact _ _ _ => True
+  | _, _, denseDef _ _ _ _ => True
+  | _, _, lu _ _ _ => True
+  | _, _, denseSym _ _ _ => True
+  | _, _, orth _ => True
+  | _, _, scaledOrth _ _ => True
+  | _, _, eigSym _ _ _ => True
   | _, _, rect _ => False
+  | _, _, blockDiag _ a b => IsInv a ∧ IsInv b
   | _, _, blockRow _ _ => False
   | _, _, blockCol _ _ => False
-  | _, _, blockDiag _ a b => IsInv a ∧ IsInv b
   | _, _, prod pk a b => pk = .invertible ∧ IsInv a ∧ IsInv b
-  | _, _, _ => True
+  | _, _, lowRank _ _ _ _ _ _ _ => True
 
 /-- The object has a `log_abs_det`. -/
 def HasDet : {m n : ℕ} → MExpr K m n → Prop
+  | _, _, identity _ => True
+  | _, _, scaledId _ _ _ => True
+  | _, _, diag _ _ => True
+  | _, _, tri _ => True
+  | _, _, triFact _ _ _ => True
+  | _, _, denseDef _ _ _ _ => True
+  | _, _, lu _ _ _ => True
+  | _, _, denseSym _ _ _ => True
+  | _, _, orth _ => True
+  | _, _, scaledOrth _ _ => True
+  | _, _, eigSym _ _ _ => True
   | _, _, rect _ => False
+  | _, _, blockDiag _ a b => HasDet a ∧ HasDet b
   | _, _, blockRow _ _ => False
   | _, _, blockCol _ _ => False
-  | _, _, blockDiag _ a b => HasDet a ∧ HasDet b
   | _, _, prod pk a b => pk ≠ .plain ∧ HasDet a ∧ HasDet b
   | _, _, lowRank _ _ _ _ S Kin C => HasDet S ∧ HasDet Kin ∧ HasDet C
-  | _, _, _ => True
 
 /-- `(denote e)ᵀ = denote e` for a square object. -/
 def IsSymm {n : ℕ} (e : MExpr K n n) : Prop := (denote e)ᵀ = denote e
